@@ -73,6 +73,7 @@ func (j *Job) String() string {
 type workItem struct {
 	job    *Job
 	prefix []decision
+	seed   map[string]uint64 // a model of the prefix's path condition, by variable name
 }
 
 type Worker struct {
